@@ -13,6 +13,8 @@ fn main() {
         std::process::exit(2);
     }
     let a = util::Args::parse(&argv[2..]);
+    // every driver: if nothing is written for fifteen minutes the process ends with exit code 3 and <out>.hang
+    util::watch::start(format!("{}.hang", a.str("out", "vh-out")));
     match argv[1].as_str() {
         "forget" => drivers::forget::run(&a),
         "probe" => drivers::probe::run(&a),
